@@ -160,6 +160,9 @@ AcceptCodec(e) ==
   IN /\ e.enc = le /\ e.intenc = le /\ e.wrapenc = le /\ e.le = le /\ e.ne = le /\ e.be = Rev(le)
      /\ e.size = n /\ e.maxlen = n
      /\ e.nested = <<7>> \o le \o <<9>> /\ e.appended = <<238>> \o le /\ e.optenc = <<1>> \o le
+     /\ (("used" \in DOMAIN e) => /\ \A i \in 1..3 : e.used[i] = le            \* using_encoded: value, &value, Box<value>
+                                   /\ e.vecenc = <<8>> \o le \o le              \* Vec: compact length 2, then the elements
+                                   /\ e.arrenc = le \o le \o le)                \* array: the elements (size_hint is recorded, not judged)
      /\ ValIs(e.decnested, a)
      /\ ValIs(e.dec, a)
      /\ \A i \in 1..n : IsNone(e.decshort[i])
